@@ -25,6 +25,7 @@ import (
 	"sort"
 	"strconv"
 	"strings"
+	"sync"
 	"syscall"
 	"testing"
 	"testing/synctest"
@@ -36,6 +37,7 @@ import (
 	"github.com/hydraide/hydraide/app/server/telemetry"
 	hydrapb "github.com/hydraide/hydraide/sdk/go/hydraidego/v3/hydraidepbgo"
 	"google.golang.org/protobuf/proto"
+	"google.golang.org/protobuf/reflect/protoreflect"
 
 	"verifharness/rig"
 )
@@ -313,6 +315,8 @@ func (b *batchRun) body(bubble bool) {
 	var executed []*genCase
 	// execute sends one request (the case itself or a follow-up) and decides "returned".
 	execute := func(ri rpcInfo, msgs []proto.Message, wires [][]byte, idx int, gc *genCase, what string) (o outcome, panics []rig.SentinelRecord) {
+		phaseBegin(b, ri.Name, idx, gc, what, bubble)
+		defer phaseEnd()
 		if bubble {
 			ctx, cancel := context.WithCancel(ctxBG)
 			fin := false
@@ -402,6 +406,14 @@ func (b *batchRun) body(bubble bool) {
 		if b.skip[caseKey(b.u.Mode, b.ri.Name, idx)] {
 			continue
 		}
+		if anyTimeout {
+			// a handler is stuck in this engine (grpc mode cannot decide why): every further
+			// request could wait for it; the rest of the batch is not run
+			if b.count {
+				c.Count("cases_not_run_after_a_stuck_grpc_handler", 1)
+			}
+			continue
+		}
 		if i > 0 && i%6 == 0 {
 			_ = seedTargets(&gw, w)
 			settle()
@@ -413,6 +425,10 @@ func (b *batchRun) body(bubble bool) {
 		executed = append(executed, gc)
 		b.culled[strconv.Itoa(gc.Idx)] = gc
 		fmt.Printf("C26REQ %d %s %d %s %s\n", b.ui, b.ri.Name, idx, gc.Style, short(strings.Join(gc.Labels, ";"), 400))
+		pre := map[string]claimState{}
+		for _, t := range gc.PatchT {
+			pre[t] = readClaimState(&gw, t)
+		}
 		o, panics := execute(b.ri, gc.Msgs, gc.Wires, idx, gc, "the request")
 		fmt.Printf("C26RET %d %d %s\n", b.ui, idx, o.Code)
 		tc.Record(telemetry.Event{Method: b.ri.Name, Success: o.OK, ErrorCode: o.Code, ErrorMsg: short(o.ErrText, 100), ClientIP: "10.0.0.2"})
@@ -441,11 +457,73 @@ func (b *batchRun) body(bubble bool) {
 		}
 		judge(b.ri, o, panics, gc, "the request")
 
+		// the claim paths of the swamps must still work: a well-formed PatchExpired (metadata
+		// only, keeps the records expired) returns and finds the expired records
+		if hasSwampName(b.ri.In) && !anyTimeout {
+			fmt.Printf("C26REQ %d %s %d %s followed-by-claim-probe;%s\n", b.ui, b.ri.Name, idx, gc.Style, short(strings.Join(gc.Labels, ";"), 300))
+			probeTargets := w.Targets
+			if len(gc.PatchT) > 0 {
+				probeTargets = gc.PatchT
+				if o.OK && b.count {
+					for _, v := range patchOracle(gc, o, pre, &gw) {
+						b.violate(v[0], v[1], v[2], gc, "")
+					}
+				}
+			}
+			for _, t := range probeTargets {
+				if anyTimeout {
+					break
+				}
+				q := &hydrapb.PatchExpiredTreasuresRequest{IslandID: safeIsland(t), SwampName: t, Meta: &hydrapb.PatchMeta{SetUpdatedAt: true}}
+				wb, _ := proto.Marshal(q)
+				po, pp := execute(b.cat["PatchExpiredTreasures"], []proto.Message{q}, [][]byte{wb}, idx, gc, "well-formed PatchExpiredTreasures after the request")
+				judge(b.cat["PatchExpiredTreasures"], po, pp, gc, "well-formed PatchExpiredTreasures after the request")
+				if b.count {
+					c.Count("claim_probes", 1)
+				}
+				st, had := pre[t]
+				if !had || !po.OK || !b.count {
+					continue
+				}
+				got := map[string]bool{}
+				if r, ok := po.Resp.(*hydrapb.PatchExpiredTreasuresResponse); ok {
+					for _, e := range r.GetPatched() {
+						got[e.GetKey()] = true
+					}
+				}
+				if miss := missing(st.expired, got); len(miss) > 0 {
+					b.violate("claim-path-lost-records", "patch-expired-probe", fmt.Sprintf("expired records %v of %s are no longer found by a well-formed PatchExpiredTreasures after the request (they were expired before it and nothing changed their expiry)", miss, t), gc, "")
+				}
+				sq := &hydrapb.ShiftExpiredTreasuresRequest{IslandID: safeIsland(t), SwampName: t, HowMany: 0}
+				sb, _ := proto.Marshal(sq)
+				so, sp := execute(b.cat["ShiftExpiredTreasures"], []proto.Message{sq}, [][]byte{sb}, idx, gc, "well-formed ShiftExpiredTreasures after the request")
+				judge(b.cat["ShiftExpiredTreasures"], so, sp, gc, "well-formed ShiftExpiredTreasures after the request")
+				if r, ok := so.Resp.(*hydrapb.ShiftExpiredTreasuresResponse); ok && so.OK {
+					got := map[string]bool{}
+					for _, e := range r.GetTreasures() {
+						got[e.GetKey()] = true
+					}
+					if miss := missing(st.expired, got); len(miss) > 0 {
+						b.violate("claim-path-lost-records", "shift-expired", fmt.Sprintf("expired records %v of %s are not handed out by ShiftExpiredTreasures(HowMany=0) after the request", miss, t), gc, "")
+					}
+				}
+			}
+			if len(gc.PatchT) > 0 {
+				_ = seedTargets(&gw, w)
+				settle()
+				sent.Drain("panic")
+			}
+			fmt.Printf("C26RET %d %d claim-probe\n", b.ui, idx)
+		}
+
 		// what the request configured is now used: valid requests that exercise it. The process
 		// may die here (a panic in an engine goroutine): the marker below attributes it.
-		if fus := followUps(b.ri, gc, o, w, idx); len(fus) > 0 && !o.Timeout {
+		if fus := followUps(b.ri, gc, o, w, idx); len(fus) > 0 && !anyTimeout {
 			fmt.Printf("C26REQ %d %s %d %s followed-by-%s;%s\n", b.ui, b.ri.Name, idx, gc.Style, fus[0].Name, short(strings.Join(gc.Labels, ";"), 300))
 			for _, fu := range fus {
+				if anyTimeout {
+					break
+				}
 				if fu.Sleep > 0 {
 					if bubble {
 						time.Sleep(fu.Sleep)
@@ -495,7 +573,9 @@ func (b *batchRun) body(bubble bool) {
 		_, _ = gw.Unlock(ctxBG, &hydrapb.UnlockRequest{Key: l[0], LockID: l[1]})
 	}
 	settle()
-	if wr != nil && !wr.close() {
+	if wr != nil && anyTimeout {
+		go wr.close()
+	} else if wr != nil && !wr.close() {
 		anyTimeout = true
 		if b.count {
 			c.Inconclusive("a grpc handler was still running 15 s (wall) after its client had gone: " + b.ri.Name)
@@ -674,6 +754,236 @@ func (b *batchRun) report(executed []*genCase) {
 
 var theCat map[string]rpcInfo
 
+// ---- patch / claim oracles -----------------------------------------------------------------
+
+type claimState struct {
+	expired map[string]bool   // keys whose expiry lies in the past
+	body    map[string]string // key -> BytesVal
+}
+
+func readClaimState(gw *gateway.Gateway, t string) claimState {
+	st := claimState{expired: map[string]bool{}, body: map[string]string{}}
+	resp, err := gw.GetAll(ctxBG, &hydrapb.GetAllRequest{IslandID: safeIsland(t), SwampName: t})
+	if err != nil || resp == nil {
+		return st
+	}
+	now := time.Now()
+	for _, tr := range resp.GetTreasures() {
+		if tr.GetExpiredAt() != nil && tr.GetExpiredAt().AsTime().Before(now) {
+			st.expired[tr.GetKey()] = true
+		}
+		st.body[tr.GetKey()] = string(tr.GetBytesVal())
+	}
+	return st
+}
+
+func missing(want, got map[string]bool) []string {
+	var out []string
+	for k := range want {
+		if !got[k] {
+			out = append(out, k)
+		}
+	}
+	sort.Strings(out)
+	return out
+}
+
+func hasSwampName(md protoreflect.MessageDescriptor) bool {
+	var walk func(md protoreflect.MessageDescriptor, depth int) bool
+	walk = func(md protoreflect.MessageDescriptor, depth int) bool {
+		fds := md.Fields()
+		for i := 0; i < fds.Len(); i++ {
+			fd := fds.Get(i)
+			if fd.Name() == "SwampName" {
+				return true
+			}
+			if fd.Message() != nil && depth > 0 && walk(fd.Message(), depth-1) {
+				return true
+			}
+		}
+		return false
+	}
+	return walk(md, 2)
+}
+
+// patchOracle checks the reply of a patch-sweep request: one status per addressed / selected
+// key, and a refused patch leaves the stored body as it was. Returns (kind, class, what).
+func patchOracle(gc *genCase, o outcome, pre map[string]claimState, gw *gateway.Gateway) (out [][3]string) {
+	refusedUnchanged := func(t, key string, status hydrapb.PatchResult_StatusCode, post claimState) {
+		if status == hydrapb.PatchResult_PATCHED || status == hydrapb.PatchResult_CREATED {
+			return
+		}
+		if before, ok := pre[t].body[key]; ok && post.body[key] != before {
+			out = append(out, [3]string{"refused-patch-changed-record", status.String(), fmt.Sprintf("record %s/%s was answered %s but its stored body changed", t, key, status)})
+		}
+	}
+	perKey := func(t string, req *hydrapb.PatchTreasuresRequest, res []*hydrapb.PatchResult) {
+		post := readClaimState(gw, t)
+		if len(res) != len(req.GetPatches()) {
+			out = append(out, [3]string{"patch-status", "results-count", fmt.Sprintf("%d patches sent to %s, %d results returned", len(req.GetPatches()), t, len(res))})
+			return
+		}
+		for i, r := range res {
+			if r.GetKey() != req.GetPatches()[i].GetKey() {
+				out = append(out, [3]string{"patch-status", "result-key", fmt.Sprintf("result %d is for key %q, patch %d addressed %q", i, r.GetKey(), i, req.GetPatches()[i].GetKey())})
+			}
+			refusedUnchanged(t, r.GetKey(), r.GetStatus(), post)
+		}
+	}
+	expired := func(t string, res []*hydrapb.PatchedExpiredTreasure) {
+		post := readClaimState(gw, t)
+		seen := map[string]bool{}
+		for _, r := range res {
+			if seen[r.GetKey()] {
+				out = append(out, [3]string{"patch-status", "duplicate-key", fmt.Sprintf("key %q of %s has more than one status", r.GetKey(), t)})
+			}
+			seen[r.GetKey()] = true
+			refusedUnchanged(t, r.GetKey(), r.GetStatus(), post)
+		}
+		if miss := missing(pre[t].expired, seen); len(miss) > 0 {
+			out = append(out, [3]string{"patch-status", "selected-key-without-status", fmt.Sprintf("HowMany=0 selects every expired record of %s, but %v got no status", t, miss)})
+		}
+	}
+	if len(gc.Msgs) == 0 || o.Resp == nil {
+		return
+	}
+	switch q := gc.Msgs[0].(type) {
+	case *hydrapb.PatchTreasuresRequest:
+		if r, ok := o.Resp.(*hydrapb.PatchTreasuresResponse); ok {
+			perKey(q.GetSwampName(), q, r.GetResults())
+		}
+	case *hydrapb.PatchTreasuresManyRequest:
+		if r, ok := o.Resp.(*hydrapb.PatchTreasuresManyResponse); ok {
+			if len(r.GetResponses()) != len(q.GetRequests()) {
+				out = append(out, [3]string{"patch-status", "responses-count", fmt.Sprintf("%d requests, %d responses", len(q.GetRequests()), len(r.GetResponses()))})
+				return
+			}
+			for i, e := range r.GetResponses() {
+				if e.Error == nil {
+					perKey(q.GetRequests()[i].GetSwampName(), q.GetRequests()[i], e.GetResults())
+				}
+			}
+		}
+	case *hydrapb.PatchExpiredTreasuresRequest:
+		if r, ok := o.Resp.(*hydrapb.PatchExpiredTreasuresResponse); ok {
+			expired(q.GetSwampName(), r.GetPatched())
+		}
+	case *hydrapb.PatchExpiredTreasuresManyRequest:
+		if r, ok := o.Resp.(*hydrapb.PatchExpiredTreasuresManyResponse); ok {
+			if len(r.GetResponses()) != len(q.GetRequests()) {
+				out = append(out, [3]string{"patch-status", "responses-count", fmt.Sprintf("%d requests, %d responses", len(q.GetRequests()), len(r.GetResponses()))})
+				return
+			}
+			for i, e := range r.GetResponses() {
+				if e.Error == nil {
+					expired(q.GetRequests()[i].GetSwampName(), e.GetPatched())
+				}
+			}
+		}
+	}
+	return
+}
+
+// ---- wedge watchdog ------------------------------------------------------------------------
+//
+// A goroutine that waits for a sync.Mutex is not durably blocked for synctest: a bubble whose
+// request dead-locks on a mutex never reaches quiescence and synctest.Wait never returns. This
+// watchdog lives outside the bubbles. Wall time only triggers it; what it decides on is the
+// goroutine dump: the request's goroutine is parked in Mutex.Lock and no goroutine of the
+// bubble is running or runnable, in two dumps taken seconds apart - nobody can ever unlock.
+
+var phase struct {
+	sync.Mutex
+	seq    int64
+	active bool
+	bubble bool
+	b      *batchRun
+	rpc    string
+	idx    int
+	gc     *genCase
+	what   string
+}
+
+func phaseBegin(b *batchRun, rpc string, idx int, gc *genCase, what string, bubble bool) {
+	phase.Lock()
+	phase.seq++
+	phase.active, phase.bubble, phase.b, phase.rpc, phase.idx, phase.gc, phase.what = true, bubble, b, rpc, idx, gc, what
+	phase.Unlock()
+}
+
+func phaseEnd() {
+	phase.Lock()
+	phase.seq++
+	phase.active = false
+	phase.Unlock()
+}
+
+var reGoHeader = regexp.MustCompile(`^goroutine (\d+) \[([^\],]+)([^\]]*)\]:`)
+
+// mutexWedge looks for the request goroutine parked on a mutex with nothing able to run.
+func mutexWedge(dump string) (gid, frame, block string, ok bool) {
+	for _, blk := range strings.Split(dump, "\n\n") {
+		m := reGoHeader.FindStringSubmatch(blk)
+		if m == nil || !strings.Contains(m[3], "synctest bubble") {
+			continue
+		}
+		switch m[2] {
+		case "running", "runnable", "syscall":
+			return "", "", "", false // somebody can still make progress
+		}
+		if strings.Contains(blk, "c26HandlerTrampoline") && (strings.HasPrefix(m[2], "sync.Mutex") || strings.HasPrefix(m[2], "sync.RWMutex")) {
+			gid, frame, block = m[1], topFrame(blk), blk
+		}
+	}
+	return gid, frame, block, gid != ""
+}
+
+func dumpAll() string {
+	buf := make([]byte, 16<<20)
+	return string(buf[:runtime.Stack(buf, true)])
+}
+
+func wedgeWatch(c *rig.Check) {
+	var lastSeq int64 = -1
+	var since time.Time
+	for {
+		time.Sleep(2 * time.Second)
+		phase.Lock()
+		seq, active, bubble := phase.seq, phase.active, phase.bubble
+		phase.Unlock()
+		if !active || !bubble {
+			lastSeq = -1
+			continue
+		}
+		if seq != lastSeq {
+			lastSeq, since = seq, time.Now()
+			continue
+		}
+		if time.Since(since) < 10*time.Second {
+			continue
+		}
+		g1, f1, _, ok1 := mutexWedge(dumpAll())
+		time.Sleep(3 * time.Second)
+		g2, _, blk, ok2 := mutexWedge(dumpAll())
+		phase.Lock()
+		same := phase.seq == seq && phase.active
+		b, rpc, idx, gc, what := phase.b, phase.rpc, phase.idx, phase.gc, phase.what
+		phase.Unlock()
+		if !same || !ok1 || !ok2 || g1 != g2 {
+			since = time.Now() // busy, not wedged: look again later
+			continue
+		}
+		kind := "hang"
+		if strings.Contains(rpc, "Expired") || strings.Contains(rpc, "Shift") {
+			kind = "claim-path-wedged"
+		}
+		b.violate(kind, "mutex@"+f1, what+" ("+rpc+") is parked in a mutex Lock while no goroutine of the engine can run: whoever took the mutex left without unlocking it, the request can never return", gc, blk)
+		fmt.Printf("C26HANGEXIT %d %d\n", b.ui, idx)
+		c.Finish()
+		os.Exit(3)
+	}
+}
+
 // ---- child ---------------------------------------------------------------------------------
 
 func runUnit(c *rig.Check, t *testing.T, ri rpcInfo, u unit, ui int, skip map[string]bool, upTo int) {
@@ -772,6 +1082,7 @@ func runChild(c *rig.Check, t *testing.T, cat map[string]rpcInfo) {
 	// a request that makes the server allocate without bound must kill this child, not the host
 	lim := uint64(12 << 30)
 	_ = syscall.Setrlimit(syscall.RLIMIT_AS, &syscall.Rlimit{Cur: lim, Max: lim})
+	go wedgeWatch(c)
 	skip := map[string]bool{}
 	for _, s := range spec.Skip {
 		skip[s] = true
@@ -881,6 +1192,7 @@ func TestCheck(t *testing.T) {
 	}
 	theCat = cat
 	sweepPerMode, sweepGrpcOffset = c.N(6, 150), c.N(6, 0)
+	patchSweepPerMode, patchSweepGrpcOffset = c.N(6, 168), c.N(6, 0)
 	if c.IsChild() {
 		runChild(c, t, cat)
 		return
@@ -1011,6 +1323,21 @@ func TestCheck(t *testing.T) {
 				ns := remainder(cl.hangUnit, cl.hangIdx)
 				if cl.hangIdx < 0 { // batch-level: that unit is finished
 					ns = remainder(cl.hangUnit+1, -1)
+				}
+				if cl.hangUnit < len(spec.Units) {
+					hu := spec.Units[cl.hangUnit]
+					deaths[hu.Mode+"/"+hu.RPC]++
+					if deaths[hu.Mode+"/"+hu.RPC] >= 4 {
+						var keep []unit
+						for _, x := range ns.Units {
+							if x.Mode == hu.Mode && x.RPC == hu.RPC {
+								c.Count("cases_not_run_after_4_process_deaths_in_their_unit", int64(x.N))
+							} else {
+								keep = append(keep, x)
+							}
+						}
+						ns.Units = keep
+					}
 				}
 				if len(ns.Units) > 0 {
 					next = append(next, ns)
